@@ -14,7 +14,7 @@ for p in props:
     for f in p['anchors']['files']:
         byfile.setdefault(f, []).append(p['id'])
 # properties that import another one's obligations see its files too (cheap ones first)
-extra = {'stats/udist.go': ['C02', 'C01'], 'mathx/choose.go': ['C08', 'C06'], 'stats/alg.go': ['C12', 'C07', 'C11'], 'vec/vec.go': ['C09', 'C17']}
+extra = {'stats/udist.go': ['C02', 'C01'], 'mathx/choose.go': ['C08', 'C06'], 'stats/alg.go': ['C12', 'C07', 'C11', 'C02', 'C06'], 'vec/vec.go': ['C09', 'C17']}
 def propsfor(f):
     ps = list(byfile.get(f, []))
     for q in extra.get(f, []):
